@@ -2,7 +2,7 @@
 Core B: the byte state machine `nextTopicLevel` / `levels` against the
 specification's `split` / `validFilter` (`levels_spec`), for byte strings
 without empty levels ('$' is an ordinary byte of the state machine; topics that
-begin with '$' are turned away by `checkSys` at the `MemTopics` entry points).
+begin with '$' - and the empty topic - are turned away by `checkTopic` at the `MemTopics` entry points).
 Helper lemmas only.
 -/
 import Mqtt.Model.Topics
@@ -356,6 +356,82 @@ theorem levels_spec (s : List UInt8) (hg : noEmptyLevel s = true) :
   rw [hv]
   exact levelsFuel_spec (s.length + 1) s (Nat.lt_succ_self _) hg
 
+/-! ### acceptance, empty levels included
+
+Whether the walk ends without an error depends on the validity of the levels
+only, and on that the state machine agrees with the specification for EVERY
+byte string - empty levels included (finding B3 changes which levels are
+stored and matched, not which filters are accepted: a non-final empty level
+becomes `+`, which is valid wherever an empty level is; a final one is dropped;
+and `#` followed by anything, an empty level included, is an error on both
+sides). -/
+
+theorem ntl_sep (r : List UInt8) : nextTopicLevel (cSEP :: r) = .ok SWC r false := by
+  simp [nextTopicLevel, ntlLoop]
+
+theorem levelsFuel_ok : ∀ (fuel : Nat) (s : List UInt8), s.length < fuel →
+    (levelsFuel fuel s).2 = validFilterLevels (split s) := by
+  intro fuel
+  induction fuel with
+  | zero => intro s h; omega
+  | succ fuel ih =>
+    intro s hlen
+    by_cases hs : s = []
+    · subst hs; rw [levelsFuel_nil]; rfl
+    obtain ⟨l, tail, e, hl, ht⟩ := chunk s
+    subst e
+    rcases ht with rfl | ⟨r, rfl⟩
+    · -- the last level, not empty
+      rw [List.append_nil] at hlen hs ⊢
+      have hntl := ntl_level l [] hs hl (Or.inl rfl)
+      rw [List.append_nil] at hntl
+      obtain ⟨f, rfl⟩ : ∃ f, fuel = f + 1 := by
+        have : 0 < l.length := List.length_pos_iff.mpr hs
+        exact ⟨fuel - 1, by omega⟩
+      rw [levelsFuel_succ _ l hs, hntl, split_nosep l hl, validFilterLevels_single, lvalidLast_eq, ← cMWC_eq]
+      by_cases h1 : l = [cMWC]
+      · subst h1; simp [levelsFuel_nil]
+      · have h1' : (l == [cMWC]) = false := by simpa using h1
+        simp only [h1', Bool.false_eq_true, ↓reduceIte, Bool.false_or]
+        by_cases h2 : lvalidMid l = true
+        · simp [h2, fin, levelsFuel_nil]
+        · simp [h2]
+    · -- a level followed by '/'
+      have hlr : r.length < fuel := by simp at hlen; omega
+      have hs' : l ++ SEP :: r ≠ [] := by simp
+      rw [levelsFuel_succ _ _ hs', split_sep l r hl]
+      cases hsr : split r with
+      | nil => exact absurd hsr (split_ne_nil r)
+      | cons x xs =>
+        have hv : validFilterLevels (l :: x :: xs) = (lvalidMid l && validFilterLevels (x :: xs)) :=
+          validFilterLevels_cons l x xs
+        have ihr := ih r hlr
+        rw [hsr] at ihr
+        by_cases hne : l = []
+        · subst hne
+          rw [List.nil_append, ← cSEP_eq, ntl_sep]
+          simp only
+          rw [ihr]
+          show validFilterLevels (x :: xs) = validFilterLevels ([] :: x :: xs)
+          rw [validFilterLevels_cons]
+          simp [lvalidMid]
+        · have hntl := ntl_level l (SEP :: r) hne hl (Or.inr ⟨r, rfl⟩)
+          rw [hntl]
+          show _ = validFilterLevels (l :: x :: xs)
+          rw [hv, ← ihr]
+          by_cases h1 : l = [cMWC]
+          · subst h1; simp [lvalidMid_hash]
+          · have h1' : (l == [cMWC]) = false := by simpa using h1
+            simp only [h1', Bool.false_eq_true, ↓reduceIte]
+            by_cases h2 : lvalidMid l = true
+            · simp [h2, fin]
+            · simp [h2]
+
+/-- the walk of `levels` ends without an error exactly when every level is valid
+(4.7.1), for every byte string -/
+theorem levels_ok (s : List UInt8) : (levels s).2 = validFilterLevels (split s) :=
+  levelsFuel_ok (s.length + 1) s (Nat.lt_succ_self _)
+
 /-- a valid topic name is a valid filter -/
 theorem validName_validFilter (s : List UInt8) (h : validName s = true) : validFilter s = true := by
   simp only [validName, Bool.and_eq_true, Bool.not_eq_true', List.isEmpty_eq_false_iff] at h
@@ -409,16 +485,47 @@ theorem good_iff (s : List UInt8) :
 /-- the model's `checkSys` is the specification's `dollar` -/
 theorem checkSys_eq_dollar (s : List UInt8) : checkSys s = Mqtt.Spec.Match.dollar s := rfl
 
-theorem good_checkSys (s : List UInt8) (hg : good s = true) : checkSys s = false := by
-  rw [checkSys_eq_dollar]; exact good_not_dollar s hg
+/-- `checkTopic` turns away exactly the empty topic and the topics beginning with '$' -/
+theorem checkTopic_eq (s : List UInt8) : checkTopic s = (s.isEmpty || Mqtt.Spec.Match.dollar s) := rfl
 
-/-! ### the `MemTopics` entry points behind `checkSys`
+theorem checkTopic_nil : checkTopic [] = true := rfl
 
-For a topic that does not begin with '$' every entry point is the trie
-operation it wraps; for one that does, it fails and leaves the store alone. -/
+theorem checkTopic_of_dollar (s : List UInt8) (h : Mqtt.Spec.Match.dollar s = true) : checkTopic s = true := by
+  rw [checkTopic_eq, h, Bool.or_true]
+
+theorem checkTopic_false_iff (s : List UInt8) :
+    checkTopic s = false ↔ s ≠ [] ∧ Mqtt.Spec.Match.dollar s = false := by
+  rw [checkTopic_eq]
+  cases s <;> simp
+
+/-- the empty byte string has an empty level (its only one) -/
+theorem noEmptyLevel_ne_nil (s : List UInt8) (h : noEmptyLevel s = true) : s ≠ [] := by
+  rintro rfl
+  simp [noEmptyLevel, goodLevels, split, splitAux] at h
+
+theorem good_ne_nil (s : List UInt8) (hg : good s = true) : s ≠ [] :=
+  noEmptyLevel_ne_nil s (good_noEmptyLevel s hg)
+
+theorem good_checkTopic (s : List UInt8) (hg : good s = true) : checkTopic s = false :=
+  (checkTopic_false_iff s).mpr ⟨good_ne_nil s hg, good_not_dollar s hg⟩
+
+/-- every valid filter and every valid name passes the emptiness test of `checkTopic` -/
+theorem checkTopic_of_validFilter (s : List UInt8) (hv : Mqtt.Spec.Match.validFilter s = true)
+    (hd : Mqtt.Spec.Match.dollar s = false) : checkTopic s = false := by
+  refine (checkTopic_false_iff s).mpr ⟨?_, hd⟩
+  rintro rfl
+  simp [Mqtt.Spec.Match.validFilter] at hv
+
+/-! ### the `MemTopics` entry points behind `checkTopic`
+
+For a topic that is not empty and does not begin with '$' every entry point is
+the trie operation it wraps; for the empty topic and for one beginning with '$'
+it fails and leaves the store alone.  (The lemma names `…_of_sys` /
+`…_of_not_sys` date from the time when the test was `checkTopic`; their
+hypothesis is the whole test `checkTopic`.) -/
 
 theorem subscribe_of_not_sys (mt : MemTopics) (maxQos : Nat) (t : List UInt8) (q s : Nat)
-    (hd : checkSys t = false) :
+    (hd : checkTopic t = false) :
     mt.subscribe maxQos t q s =
       (if !validQos q then (mt, none) else
         let qos := if q > maxQos then maxQos else q
@@ -427,30 +534,30 @@ theorem subscribe_of_not_sys (mt : MemTopics) (maxQos : Nat) (t : List UInt8) (q
   simp [MemTopics.subscribe, hd]
 
 theorem subscribe_of_sys (mt : MemTopics) (maxQos : Nat) (t : List UInt8) (q s : Nat)
-    (hd : checkSys t = true) : mt.subscribe maxQos t q s = (mt, none) := by
+    (hd : checkTopic t = true) : mt.subscribe maxQos t q s = (mt, none) := by
   unfold MemTopics.subscribe
   split
   · rfl
   · simp [hd]
 
 theorem unsubscribe_of_not_sys (mt : MemTopics) (t : List UInt8) (sub : Option Nat)
-    (hd : checkSys t = false) :
+    (hd : checkTopic t = false) :
     mt.unsubscribe t sub = (let (r, ok) := mt.sroot.sremove t sub; ({ mt with sroot := r }, ok)) := by
   simp [MemTopics.unsubscribe, hd]
 
 theorem unsubscribe_of_sys (mt : MemTopics) (t : List UInt8) (sub : Option Nat)
-    (hd : checkSys t = true) : mt.unsubscribe t sub = (mt, false) := by
+    (hd : checkTopic t = true) : mt.unsubscribe t sub = (mt, false) := by
   simp [MemTopics.unsubscribe, hd]
 
-theorem subscribers_of_not_sys (mt : MemTopics) (t : List UInt8) (q : Nat) (hd : checkSys t = false) :
+theorem subscribers_of_not_sys (mt : MemTopics) (t : List UInt8) (q : Nat) (hd : checkTopic t = false) :
     mt.subscribers t q = (if !validQos q then none else mt.sroot.smatch t q) := by
   simp [MemTopics.subscribers, hd]
 
-theorem subscribers_of_sys (mt : MemTopics) (t : List UInt8) (q : Nat) (hd : checkSys t = true) :
+theorem subscribers_of_sys (mt : MemTopics) (t : List UInt8) (q : Nat) (hd : checkTopic t = true) :
     mt.subscribers t q = none := by
   simp [MemTopics.subscribers, hd]
 
-theorem retain_of_not_sys (mt : MemTopics) (m : RMsg) (hd : checkSys m.topic = false) :
+theorem retain_of_not_sys (mt : MemTopics) (m : RMsg) (hd : checkTopic m.topic = false) :
     mt.retain m =
       (if m.payload.isEmpty then
         let (r, ok) := mt.rroot.rremove m.topic
@@ -460,38 +567,48 @@ theorem retain_of_not_sys (mt : MemTopics) (m : RMsg) (hd : checkSys m.topic = f
         ({ mt with rroot := r }, ok)) := by
   simp [MemTopics.retain, hd]
 
-theorem retain_of_sys (mt : MemTopics) (m : RMsg) (hd : checkSys m.topic = true) :
+theorem retain_of_sys (mt : MemTopics) (m : RMsg) (hd : checkTopic m.topic = true) :
     mt.retain m = (mt, false) := by
   simp [MemTopics.retain, hd]
 
-theorem retained_of_not_sys (mt : MemTopics) (t : List UInt8) (hd : checkSys t = false) :
+theorem retained_of_not_sys (mt : MemTopics) (t : List UInt8) (hd : checkTopic t = false) :
     mt.retained t = mt.rroot.rmatch t := by
   simp [MemTopics.retained, hd]
 
-theorem retained_of_sys (mt : MemTopics) (t : List UInt8) (hd : checkSys t = true) :
+theorem retained_of_sys (mt : MemTopics) (t : List UInt8) (hd : checkTopic t = true) :
     mt.retained t = none := by
   simp [MemTopics.retained, hd]
 
 /-! ### the levels an entry point walks
 
 `entryLevels t` is what the trie operation behind an entry point gets to see of
-`t`: nothing at all (and failure) when `checkSys` turns the topic away, the
+`t`: nothing at all (and failure) when `checkTopic` turns the topic away, the
 result of `levels` otherwise.  With it every entry point has one equation that
 holds for all topics. -/
 
-def entryLevels (t : List UInt8) : List Level × Bool := if checkSys t then ([], false) else levels t
+def entryLevels (t : List UInt8) : List Level × Bool := if checkTopic t then ([], false) else levels t
 
-theorem entryLevels_of_not_sys (t : List UInt8) (h : checkSys t = false) : entryLevels t = levels t := by
+theorem entryLevels_of_not_sys (t : List UInt8) (h : checkTopic t = false) : entryLevels t = levels t := by
   simp [entryLevels, h]
 
-theorem entryLevels_of_sys (t : List UInt8) (h : checkSys t = true) : entryLevels t = ([], false) := by
+theorem entryLevels_of_sys (t : List UInt8) (h : checkTopic t = true) : entryLevels t = ([], false) := by
   simp [entryLevels, h]
 
 theorem entryLevels_good (t : List UInt8) (hg : good t = true) : entryLevels t = levels t :=
-  entryLevels_of_not_sys t (good_checkSys t hg)
+  entryLevels_of_not_sys t (good_checkTopic t hg)
 
-theorem entryLevels_snd (t : List UInt8) : (entryLevels t).2 = (!checkSys t && (levels t).2) := by
-  cases h : checkSys t <;> simp [entryLevels, h]
+theorem entryLevels_snd (t : List UInt8) : (entryLevels t).2 = (!checkTopic t && (levels t).2) := by
+  cases h : checkTopic t <;> simp [entryLevels, h]
+
+/-- **acceptance**: an entry point lets a topic through and its walk ends without
+an error exactly when the topic is a valid filter not beginning with '$' - for
+every byte string, empty levels (finding B3) and the empty topic (finding B6,
+repaired) included -/
+theorem entryLevels_ok (t : List UInt8) :
+    (entryLevels t).2 = (Mqtt.Spec.Match.validFilter t && !Mqtt.Spec.Match.dollar t) := by
+  rw [entryLevels_snd, levels_ok, checkTopic_eq]
+  unfold Mqtt.Spec.Match.validFilter
+  cases t.isEmpty <;> cases Mqtt.Spec.Match.dollar t <;> simp
 
 theorem sinsertL_nil_false (n : SNode) (s q : Nat) : n.sinsertL [] false s q = n := by
   cases n; rfl
@@ -511,7 +628,7 @@ theorem subscribe_entry (mt : MemTopics) (mq : Nat) (t : List UInt8) (q s : Nat)
       if !validQos q then (mt, none) else
         ({ mt with sroot := mt.sroot.sinsertL (entryLevels t).1 (entryLevels t).2 s (if q > mq then mq else q) },
           if (entryLevels t).2 then some (if q > mq then mq else q) else none) := by
-  cases hd : checkSys t with
+  cases hd : checkTopic t with
   | true =>
     rw [subscribe_of_sys _ _ _ _ _ hd, entryLevels_of_sys t hd]
     simp only [sinsertL_nil_false]
@@ -524,14 +641,14 @@ theorem unsubscribe_entry (mt : MemTopics) (t : List UInt8) (sub : Option Nat) :
     mt.unsubscribe t sub =
       ({ mt with sroot := (mt.sroot.sremoveL (entryLevels t).1 (entryLevels t).2 sub).1 },
         (mt.sroot.sremoveL (entryLevels t).1 (entryLevels t).2 sub).2) := by
-  cases hd : checkSys t with
+  cases hd : checkTopic t with
   | true => rw [unsubscribe_of_sys _ _ _ hd, entryLevels_of_sys t hd]; simp only [sremoveL_nil_false]
   | false => rw [unsubscribe_of_not_sys _ _ _ hd, entryLevels_of_not_sys t hd]; rfl
 
 theorem subscribers_entry (mt : MemTopics) (t : List UInt8) (q : Nat) :
     mt.subscribers t q =
       if !validQos q then none else mt.sroot.smatchL (entryLevels t).1 (entryLevels t).2 q := by
-  cases hd : checkSys t with
+  cases hd : checkTopic t with
   | true => rw [subscribers_of_sys _ _ _ hd, entryLevels_of_sys t hd]; simp [smatchL_nil_false]
   | false => rw [subscribers_of_not_sys _ _ _ hd, entryLevels_of_not_sys t hd]; rfl
 
@@ -543,7 +660,7 @@ theorem retain_entry (mt : MemTopics) (m : RMsg) :
       else
         ({ mt with rroot := mt.rroot.rinsertL (entryLevels m.topic).1 (entryLevels m.topic).2 m },
           (entryLevels m.topic).2) := by
-  cases hd : checkSys m.topic with
+  cases hd : checkTopic m.topic with
   | true =>
     rw [retain_of_sys _ _ hd, entryLevels_of_sys _ hd]
     simp only [rremoveL_nil_false, rinsertL_nil_false]
@@ -552,7 +669,7 @@ theorem retain_entry (mt : MemTopics) (m : RMsg) :
 
 theorem retained_entry (mt : MemTopics) (t : List UInt8) :
     mt.retained t = mt.rroot.rmatchL (entryLevels t).1 (entryLevels t).2 := by
-  cases hd : checkSys t with
+  cases hd : checkTopic t with
   | true => rw [retained_of_sys _ _ hd, entryLevels_of_sys t hd, rmatchL_nil_false]
   | false => rw [retained_of_not_sys _ _ hd, entryLevels_of_not_sys t hd]; rfl
 
@@ -561,12 +678,45 @@ theorem sys_rejected (mt : MemTopics) (t : List UInt8) (hd : Mqtt.Spec.Match.dol
     (∀ mq q s, mt.subscribe mq t q s = (mt, none)) ∧ (∀ sub, mt.unsubscribe t sub = (mt, false)) ∧
     (∀ q, mt.subscribers t q = none) ∧ (∀ m : RMsg, m.topic = t → mt.retain m = (mt, false)) ∧
     mt.retained t = none := by
-  have hc : checkSys t = true := hd
+  have hc : checkTopic t = true := checkTopic_of_dollar t hd
   refine ⟨fun mq q s => subscribe_of_sys mt mq t q s hc, fun sub => unsubscribe_of_sys mt t sub hc,
     fun q => ?_, fun m hm => retain_of_sys mt m (hm ▸ hc), retained_of_sys mt t hc⟩
   unfold MemTopics.subscribers
   split
   · rfl
   · simp [hc]
+
+/-- a topic `checkTopic` refuses is turned away by all five entry points, the store unchanged -/
+theorem refused_rejected (mt : MemTopics) (t : List UInt8) (hc : checkTopic t = true) :
+    (∀ mq q s, mt.subscribe mq t q s = (mt, none)) ∧ (∀ sub, mt.unsubscribe t sub = (mt, false)) ∧
+    (∀ q, mt.subscribers t q = none) ∧ (∀ m : RMsg, m.topic = t → mt.retain m = (mt, false)) ∧
+    mt.retained t = none := by
+  refine ⟨fun mq q s => subscribe_of_sys mt mq t q s hc, fun sub => unsubscribe_of_sys mt t sub hc,
+    fun q => ?_, fun m hm => retain_of_sys mt m (hm ▸ hc), retained_of_sys mt t hc⟩
+  unfold MemTopics.subscribers
+  split
+  · rfl
+  · simp [hc]
+
+/-- the empty topic (no topic name and no filter, MQTT-4.7.3-1) is turned away
+by all five entry points, the store unchanged (finding B6, repaired) -/
+theorem empty_rejected (mt : MemTopics) :
+    (∀ mq q s, mt.subscribe mq [] q s = (mt, none)) ∧ (∀ sub, mt.unsubscribe [] sub = (mt, false)) ∧
+    (∀ q, mt.subscribers [] q = none) ∧ (∀ m : RMsg, m.topic = [] → mt.retain m = (mt, false)) ∧
+    mt.retained [] = none :=
+  refused_rejected mt [] checkTopic_nil
+
+/-- the levels an entry point walks never are "no level at all, successfully":
+the root node of either trie is not addressable through `MemTopics` -/
+theorem entryLevels_ne_root (t : List UInt8) : entryLevels t ≠ ([], true) := by
+  unfold entryLevels
+  cases hc : checkTopic t with
+  | true => simp
+  | false =>
+    simp only [Bool.false_eq_true, ↓reduceIte]
+    have hne : t ≠ [] := ((checkTopic_false_iff t).mp hc).1
+    unfold levels
+    rw [levelsFuel_succ _ t hne]
+    cases nextTopicLevel t <;> simp
 
 end Mqtt.Proofs.Topics
